@@ -25,6 +25,7 @@ func init() {
 	register(&Prop{
 		ID: "C19",
 		Rule: "directories by pattern family (dense, isolated gaps, gap runs next to either bound, missing minimum with dense/sparse low end, sparse sets, planet-like missing prefix) x ranges 1..2000 (quick) / up to 10^6 (thorough) x 8 query times (before all, on a state, between, in a gap, on current, after all) x four replication kinds; " +
+			"plus changeset directories around sequence number 2007990 (the source's declared first changeset state); " +
 			"request cap makes non-termination an outcome; non-trivial = at least 3 requests; distinct = distinct op line",
 		Gen:   c19Gen,
 		Exec:  c19Exec,
